@@ -221,14 +221,13 @@ func vpC14CheckWord(evs []vpC14Ev, starts []int, o vpC14Oracle) string {
 // ---- histories
 
 type vpC14Hist struct {
-	Kind        string   // nobytes | partial | requests | malformed | timeout | hijack | rejected
-	Units       [][]byte // request units in order (complete requests, last one possibly partial/malformed/hijacking)
-	Trailing    []byte   // bytes after a hijacking request (belong to no request)
-	Pipelined   bool     // all units in one Feed (else one at a time, waiting for the server to settle)
-	Plan        []int
-	EOFFirst    bool // nobytes: client EOF is already there when the server gets the connection
-	End         string // eof | timeout
-	HijackKeepReading bool
+	Kind      string   // nobytes | partial | requests | malformed | timeout | hijack | rejected
+	Units     [][]byte // request units in order (complete requests, last one possibly partial/malformed/hijacking)
+	Trailing  []byte   // bytes after a hijacking request (belong to no request)
+	Pipelined bool     // all units in one Feed (else one at a time, waiting for the server to settle)
+	Plan      []int
+	EOFFirst  bool   // nobytes: client EOF is already there when the server gets the connection
+	End       string // eof | timeout
 }
 
 func (h vpC14Hist) String() string {
